@@ -27,8 +27,9 @@ CFG_ROOT = os.path.join(C.BUILD, "c17", "cfg")
 WORK = os.path.join(C.BUILD, "c17", "work")
 
 # context variables set for every conversation; their VALUES must never show up in a reply
-CTX = {"secret": "S3CR3TVAL", "x": "XVALUE77", "user_name": "UNAMEVAL"}
-FORBIDDEN = ["S3CR3TVAL", "XVALUE77", "UNAMEVAL", "1337"]          # 1337 = 7*191
+CTX = {"secret": "S3CR3TVAL", "x": "XVALUE77", "user_name": "UNAMEVAL",
+       "profile": {"k": "PROFVAL9"}, "items": [3, 4], "count": 7}      # ... also truthy NON-string values
+FORBIDDEN = ["S3CR3TVAL", "XVALUE77", "UNAMEVAL", "1337", "PROFVAL9"]          # 1337 = 7*191
 MARKERS = ["{{ 7*191 }}", "$secret", "{$x}", "{{ secret }}", "{{user_name}}", "${secret}", "{% if 1 %}Y{% endif %}"]
 
 # ---------------------------------------------------------------------------------------
@@ -80,7 +81,12 @@ define flow price
   user ask price
   bot inform price
   bot ask anything else
+
+define flow dummy input check
+  $input_checked = True
 """
+
+_INPUT_RAIL = "    flows:\n      - dummy input check\n"
 
 _V2_HEAD = """colang_version: "2.x"
 """ + _YML_HEAD
@@ -163,9 +169,9 @@ flow answering
 MODES = {
     "v1_general": {"yml": _YML_HEAD, "co": None, "v": 1},
     "v1_passthrough": {"yml": _YML_HEAD + "passthrough: true\n", "co": None, "v": 1},
-    "v1_dialog": {"yml": _YML_HEAD, "co": _V1_DIALOG_CO, "v": 1},
-    "v1_single_call": {"yml": _YML_HEAD + "rails:\n  dialog:\n    single_call:\n      enabled: true\n", "co": _V1_DIALOG_CO, "v": 1},
-    "v1_multi_step": {"yml": _YML_HEAD + "enable_multi_step_generation: true\n", "co": _V1_DIALOG_CO, "v": 1},
+    "v1_dialog": {"yml": _YML_HEAD + "rails:\n  input:\n" + _INPUT_RAIL, "co": _V1_DIALOG_CO, "v": 1},
+    "v1_single_call": {"yml": _YML_HEAD + "rails:\n  input:\n" + _INPUT_RAIL + "  dialog:\n    single_call:\n      enabled: true\n", "co": _V1_DIALOG_CO, "v": 1},
+    "v1_multi_step": {"yml": _YML_HEAD + "rails:\n  input:\n" + _INPUT_RAIL + "enable_multi_step_generation: true\n", "co": _V1_DIALOG_CO, "v": 1},
     "v2_llm": {"yml": _V2_HEAD, "co": _V2_LLM_CO, "v": 2},
     "v2_value": {"yml": _V2_HEAD, "co": _V2_VALUE_CO, "v": 2},
     "v2_saylike": {"yml": _V2_HEAD, "co": _V2_SAYLIKE_CO, "v": 2},
@@ -543,6 +549,34 @@ def hostile_corpus():
     return c
 
 
+# context variables that exist (or not) when the bot intent is produced: the runtime's own, the rails'
+# ($i, $input_flows ... need an input rail), the caller's (str and non-str), undefined ones
+CTX_VAR_NAMES = ["event", "generation_options", "relevant_chunks", "relevant_chunks_sep", "retrieved_for", "i", "input_flows",
+                 "triggered_input_rail", "input_checked", "user_message", "last_user_message", "last_bot_message", "bot_message",
+                 "config", "skip_output_rails", "_last_bot_prompt", "allowed", "secret", "x", "user_name", "profile", "items",
+                 "count", "undefined_name", ""]
+INTENT_POS = {"v1_dialog": "2", "v1_multi_step": "2", "v1_single_call": "1"}    # the call that yields the BOT INTENT
+
+
+def ctxvar_intent_texts(mode, name):
+    """LLM outputs whose bot intent is `$name`, in the format of the mode's intent-yielding call."""
+    if mode == "v1_single_call":
+        return [f'  ask x\nbot ${name}\n  "m"', f"  ask x\nBot intent: ${name}"]
+    return [f"bot ${name}", f"bot ${name}\nbot a" if mode == "v1_multi_step" else f"  bot ${name}  "]
+
+
+UNSUPPORTED_ATOMS = ["...", "b'x'", "1j"]
+SUPPORTED_ATOMS = ["'s'", "1", "1.5", "True", "None"]
+LITERAL_SHAPES = ["{u}", "[1, {u}]", "(1, {u})", "{{1, {u}}}", "{{'k': {u}}}", "{{{u}: 1}}", "{{(1, {u}): 2}}", "{{'k': [1, ({u},)]}}",
+                  "[{{{u}: 'v'}}]", "{{'a': {{{u}: 0}}}}", "({{(({u},),): 1}},)", "{{'k': {{1, {u}}}}}"]
+
+
+def unsupported_literal_texts():
+    """Every unstorable constant at every structural position of a literal (top level, list / tuple /
+    set item, dict value, dict KEY, nested tuple key, nested containers)."""
+    return [sh.format(u=u) for sh in LITERAL_SHAPES for u in UNSUPPORTED_ATOMS]
+
+
 _MUT_FRAGS = ['"', "\n", "\nuser ", "\nbot ", "$secret", "{{ 7*191 }}", "{$x}", "\x00", "  ", "\t", "#", ":", "'", "\\n", "...", " and ", " or ", "(", ")",
               '\nuser "x"', "define flow y\n", "flow z\n", "User: ", ",", "é"]
 
@@ -751,6 +785,8 @@ def coq_answer(a):
         return f"(ATriple {coq_text(a[1])} {coq_text(a[2])} {coq_text(a[3])})"
     if k == "raise":
         return f"(ARaise {EXN[a[1]]})" if a[1] in EXN else None
+    if k == "nonstr":
+        return "ANonStr"
     if k == "outcome":
         return "(AOutcome GeneralResponse)" if a[1] is None else f"(AOutcome (StartFlow {coq_texts(a[1])}))"
     raise ValueError(k)
@@ -880,6 +916,17 @@ class ImplHelpers:
                 return (e["intent"], e["additional_info"]["bot_intent_event"]["intent"], e["additional_info"]["bot_message_event"]["text"])
             k, v = self._act("v1_single_call", s, go)
             return ("triple",) + tuple(v) if k == "ok" else (k, v)
+        if h == "HCtxUtter":
+            value = s2      # the value of the context variable `cv`
+
+            async def go(a, app):
+                r = await a.generate_bot_message(events=ev + [{"type": "UserIntent", "intent": "ask x"}, {"type": "BotIntent", "intent": "$cv"}],
+                                                 context={"cv": value})
+                return r.events[0]["text"]
+            k, v = self._act("v1_dialog", "unused", go)
+            if k != "ok":
+                return (k, v)
+            return ("text", v) if isinstance(v, str) else ("nonstr", type(v).__name__)
         if h == "HValueText":
             import nemoguardrails.actions.v2_x.generation as G2
             seen = []
@@ -930,6 +977,89 @@ class ImplHelpers:
         raise ValueError(h)
 
 
+def py_to_pyv(v):
+    """A Python value produced by literal_eval as a Coq `pyv` term."""
+    if v is Ellipsis:
+        return "(PAtom AEllipsis)"
+    if v is None:
+        return "(PAtom ANoneV)"
+    if isinstance(v, bool):
+        return "(PAtom ABool)"
+    for ty, a in ((str, "AStr"), (int, "AInt"), (float, "AFloat"), (bytes, "ABytes"), (complex, "AComplex")):
+        if isinstance(v, ty):
+            return f"(PAtom {a})"
+    if isinstance(v, (list, tuple, set, frozenset)):
+        items = [py_to_pyv(x) for x in v]
+        return "(PSeq [" + "; ".join(items) + "])" if items else "(PSeq [])"
+    if isinstance(v, dict):
+        items = [f"({py_to_pyv(k)}, {py_to_pyv(x)})" for k, x in v.items()]
+        return "(PDict [" + "; ".join(items) + "])" if items else "(PDict [])"
+    raise ValueError(type(v).__name__)
+
+
+def value_differential(out, rng, tier):
+    """_is_supported_value: the real function against the model (inside Coq), and - independently of
+    the model - against the conversation state's own encoder: accepted => storable."""
+    import json as _json
+    from ast import literal_eval
+
+    from nemoguardrails.actions.v2_x.generation import _is_supported_value
+    from nemoguardrails.colang.v2_x.runtime.serialization import encode_to_dict
+
+    texts = []
+    for sh in LITERAL_SHAPES:
+        for u in UNSUPPORTED_ATOMS + SUPPORTED_ATOMS:
+            texts.append(sh.format(u=u))
+    atoms_ = UNSUPPORTED_ATOMS + SUPPORTED_ATOMS * 2
+
+    def rand_lit(d):
+        k = rng.randrange(6) if d > 0 else 0
+        if k == 0:
+            return rng.choice(atoms_)
+        if k == 1:
+            return "[" + ", ".join(rand_lit(d - 1) for _ in range(rng.randint(0, 3))) + "]"
+        if k == 2:
+            return "(" + "".join(rand_lit(d - 1) + ", " for _ in range(rng.randint(0, 3))) + ")"
+        if k == 3:
+            return "{" + ", ".join(rand_key(d - 1) for _ in range(rng.randint(1, 3))) + "}"
+        return "{" + ", ".join(rand_key(d - 1) + ": " + rand_lit(d - 1) for _ in range(rng.randint(0, 3))) + "}"
+
+    def rand_key(d):       # hashable
+        if d <= 0 or rng.random() < 0.6:
+            return rng.choice(atoms_)
+        return "(" + "".join(rand_key(d - 1) + ", " for _ in range(rng.randint(1, 2))) + ")"
+
+    for _ in range(300 if tier == "quick" else 3000):
+        texts.append(rand_lit(3))
+    terms, kept = [], []
+    for t in dict.fromkeys(texts):
+        try:
+            v = literal_eval(t)
+        except Exception:
+            continue
+        try:
+            acc = bool(_is_supported_value(v))
+        except Exception as e:
+            out.findings.append(C.Finding(f"helper/supported-value/raises:{type(e).__name__}", f"_is_supported_value raised on {t}",
+                                          {"kind": "value", "literal": t}))
+            continue
+        if acc:
+            try:
+                _json.dumps(encode_to_dict(v, {}))
+            except Exception as e:
+                out.findings.append(C.Finding("helper/supported-value/accepted-unstorable",
+                                              f"_is_supported_value accepts {t} but the conversation state cannot hold it ({type(e).__name__}: {str(e)[:80]})",
+                                              {"kind": "value", "literal": t}))
+        terms.append(f"({py_to_pyv(v)}, {C.coq_bool(acc)})")
+        kept.append((t, acc))
+    return terms, kept
+
+
+CTX_VALUES = [("str", ""), ("str", "abc"), ("str", "a\\nb"), ("str", " "), ("str", "{{ 7*191 }} $secret"), ("str", '"q"'),
+              ("obj", {"k": 1}), ("obj", [1]), ("obj", 7), ("obj", True), ("obj", 1.5), ("obj", (1,)), ("obj", {"type": "E", "text": "t"}),
+              ("obj", None), ("obj", 0), ("obj", []), ("obj", {}), ("obj", False), ("obj", 0.0)]
+
+
 HELPERS = ["HFirstLine", "HTopK", "HStripQuotes", "HMultiline", "HClean", "HVerbose", "HUserIntent", "HNextStep",
            "HBotMessage", "HGeneral", "HSingleCall", "HIndent", "HSplit1", "HValueText"]
 
@@ -971,6 +1101,25 @@ def differential(out, rng, tier, validate_wrapped, extra_cases=()):
                 add(h, s, "$v =", impl.call(h, s, "$v ="))
             else:
                 add(h, s, None, impl.call(h, s))
+    # bot intent `$name`: the utterance taken from a context variable of any type
+    for kind, val in CTX_VALUES:
+        a = impl.call("HCtxUtter", "", val)
+        cv = f"(CStr {coq_text(val)})" if kind == "str" else f"(CNonStr {C.coq_bool(bool(val))})"
+        ca = coq_answer(a)
+        hist[a[0]] = hist.get(a[0], 0) + 1
+        if ca is None:
+            out.findings.append(C.Finding(f"helper/HCtxUtter/unexpected-exception:{a[1]}", f"generate_bot_message raised {a[1]} for `$cv` = {val!r}",
+                                          {"kind": "helper", "helper": "HCtxUtter", "text": "", "value": val}))
+            continue
+        term = f"(HCtxUtter {cv}, ([] : text), ([] : text), {ca})"
+        if a[0] == "nonstr":
+            # independent of the model: the text of a BotMessage event must be a str
+            out.findings.append(C.Finding("helper/HCtxUtter/bot-message-text-not-a-str",
+                                          f"generate_bot_message for the bot intent `$cv` with cv={val!r} emits BotMessage(text=<{a[1]}>)",
+                                          {"kind": "helper", "helper": "HCtxUtter", "text": "", "value": val}))
+        n_nontrivial += 1
+        terms.append(term)
+        kept.append(("HCtxUtter", repr(val), None, a, None))
     # the shrink loop with arbitrary oracles (a candidate is accepted iff its number of lines is listed)
     for _ in range(200 if tier == "quick" else 2000):
         n = rng.randint(1, 7)
@@ -1017,6 +1166,22 @@ def gen_cases(rng, tier):
             pool += list(dict.fromkeys(LITERAL_TEXTS.values()))
             for t in dict.fromkeys(pool):
                 cases.append({"mode": mode, "turns": TURNS[mode], "subst": {str(k): t}})
+    # the bot intent `$name` for every context variable name, at the call that yields the bot intent
+    # (one conversation with that single call hostile, one with every call answering it)
+    for mode, pos in INTENT_POS.items():
+        for name in CTX_VAR_NAMES:
+            ts = ctxvar_intent_texts(mode, name)
+            cases.append({"mode": mode, "turns": TURNS[mode], "subst": {pos: ts[0]}})
+            cases.append({"mode": mode, "turns": TURNS[mode], "every": [ts[0]]})
+            if tier == "thorough" or name == "event":
+                for k in range(NPOS[mode]):
+                    for t in ts:
+                        cases.append({"mode": mode, "turns": TURNS[mode], "subst": {str(k): t}})
+    # generated values: every unstorable constant at every structural position of the literal
+    for mode in ("v2_value", "v2_saylike"):
+        for t in unsupported_literal_texts():
+            for k in (range(NPOS[mode]) if tier == "thorough" else [0]):
+                cases.append({"mode": mode, "turns": TURNS[mode], "subst": {str(k): t}})
     # every call hostile
     allt = [t for _, t in corpus if len(t) < 2000] + [t for _, t in muts]
     for mode in MODES:
@@ -1053,7 +1218,7 @@ def judge(case, r, kind_at):
             texts = list(case.get("subst", {}).values()) + list(case.get("every", []))
             for t in texts:
                 for m in re.finditer(r"(?:^|\n)\s*(?:bot|Bot intent:)\s+\$(\w+)", t):
-                    if CTX.get(m.group(1)) == f["found"]:
+                    if f["found"] in json.dumps(CTX.get(m.group(1), "")):
                         return ("obs", "bot-intent-$var-dereferences-context-variable")
             return (f"{case['mode']}/{kind}/evaluated", f"template/variable syntax from the LLM was evaluated: {f['found']} in {f['reply'][:80]!r}")
         if f["kind"] == "raised":
@@ -1117,8 +1282,10 @@ def run(tier, seed, replay=None):
     if replay:
         d = json.load(open(replay))
         rc = d.get("replay", d)
-        if rc.get("kind") == "helper":
-            corpus_diff = [(rc["helper"], rc["text"], rc.get("text2"), rc.get("lens"))]
+        if rc.get("kind") == "value":
+            corpus_diff, corpus_e2e = [], []       # the value differential below is systematic and runs anyway
+        elif rc.get("kind") == "helper":
+            corpus_diff = [(rc["helper"], rc["text"], rc.get("text2"), rc.get("lens"))] if rc["helper"] != "HCtxUtter" else []
             corpus_e2e = []
         else:
             replay_case = {k: rc[k] for k in ("mode", "turns", "subst", "every") if k in rc}
@@ -1149,6 +1316,19 @@ def run(tier, seed, replay=None):
             out.add_broken("correspondence:C17-helpers(coqc)", err)
         else:
             disagreements = [c for ok, c in zip(bools, kept) if not ok]
+    # _is_supported_value (generated values): model vs real function, and accepted => storable
+    n_val = 0
+    if okm and not (replay and replay_case):
+        vterms, vkept = value_differential(out, rng, tier)
+        n_val = len(vterms)
+        vb, err = C.run_cases(PID + "_val", PREAMBLE, vterms, "check_value_case", shard=300)
+        if err:
+            out.add_broken("correspondence:C17-supported-value(coqc)", err)
+        else:
+            vbad = [c for ok, c in zip(vb, vkept) if not ok]
+            if vbad:
+                t, acc = min(vbad, key=lambda c: len(c[0]))
+                out.add_broken("correspondence:C17-supported-value", f"{len(vbad)} disagreements; smallest: _is_supported_value({t}) = {acc}")
     if disagreements:
         c = min(disagreements, key=lambda c: len(c[1]))
         out.add_broken("correspondence:C17-helpers", f"{len(disagreements)} disagreements; smallest: {_diff_case_name(c)}")
@@ -1203,7 +1383,7 @@ def run(tier, seed, replay=None):
     e2e_s = round(time.time() - t0, 1)
 
     out.coverage.update({
-        "evaluations": n_diff + n_conv,
+        "evaluations": n_diff + n_val + n_conv,
         "distinct_nontrivial": n_nontrivial + len(distinct),
         "rule": "helper differential: distinct (helper, text) Coq case terms where the helper changed the text or answered None / an exception "
                 "(non-trivial); end-to-end: distinct (mode, hostile substitution) conversations (every one has >= 1 hostile LLM output and <= 3 turns)",
@@ -1214,7 +1394,11 @@ def run(tier, seed, replay=None):
                                "hostile_calls_per_mode_and_kind": {f"{m}/{k}": v for (m, k), v in sorted(kinds_hit.items())},
                                "corpus_cases": len(corpus_e2e) + len(corpus_diff), "hostile_corpus_size": len(hostile_corpus()),
                                "baseline_call_kinds": kind_at},
-        "traces_validated_against_impl": n_diff,
+        "traces_validated_against_impl": n_diff + n_val,
+        "generated_value_cases": n_val,
+        "bot_intent_ctxvar_calls": sum(1 for c, r in zip(cases, results) for x in r.get("calls", [])
+                                       if x["hostile"] and x["kind"] in ("next_steps", "single_call")
+                                       and any("$" in t for t in list(c.get("subst", {}).values()) + list(c.get("every", [])))),
         "correspondence_disagreements": len(disagreements),
         "oracle_violations": sum(v[4] for v in by_sig.values()),
         "observations": obs,
